@@ -52,7 +52,7 @@ func (c *EventCache) Add(event *Event) (added bool) {
 
 	eventKey := c.getEventKey(event)
 
-	if c.isDeleted(eventKey, event.Pubkey) {
+	if c.isDeleted(eventKey, event.Pubkey) || c.isDeleted(event.ID, event.Pubkey) {
 		return false
 	}
 
@@ -114,6 +114,11 @@ func (c *EventCache) deleteByKind5(event *Event) {
 
 	for _, key := range keys {
 		c.delete(eventCacheDeletedEventKey{key, event.Pubkey})
+
+		// key may be the id of a replaceable event, which is stored under its address.
+		for ev := range c.evsIndex.idx[eventCacheEvsIndexKey{eventCacheEvsIndexKeyWhatID, key}] {
+			c.delete(eventCacheDeletedEventKey{c.getEventKey(ev), event.Pubkey})
+		}
 	}
 }
 
